@@ -10,6 +10,7 @@ mod c07;
 mod c04;
 mod c05;
 mod c16;
+mod c20;
 
 fn main() {
     std::panic::set_hook(Box::new(|_| {}));
@@ -30,6 +31,7 @@ fn main() {
         "c04" => c04::run(tier, seed, &mut out),
         "c05" => c05::run(tier, seed, &mut out),
         "c16" => c16::run(tier, seed, &mut out),
+        "c20" => c20::run(tier, seed, &mut out),
         _ => {
             eprintln!("unknown family {}", fam);
             std::process::exit(2);
